@@ -107,6 +107,11 @@ def gen_string(rng, idx, canary_dir):
         payload = f"'''+str(setattr(__import__('builtins'),'PWNED_{idx}',1))+'''"
     elif k < 0.34:
         payload = f"\\\n__import__('os').system('touch {canary}')\n#"
+    elif k < 0.40:
+        # closes a literal of either quote style and comments the rest of the line out
+        payload = rng.choice(["'", '"', "'''"]) + f"+str(setattr(__import__('builtins'),'PWNED_{idx}',1))#"
+    elif k < 0.43:
+        payload = rng.choice(["'", '"']) + f"+str(open('{canary}','w'))#" + rng.choice(["'", '"', ''])
     pos = rng.randrange(0, len(body) + 1)
     s = body[:pos] + marker + (payload or '') + body[pos:]
     return s, marker, idx, payload is not None
@@ -118,7 +123,8 @@ def q(s):
 
 
 PLACEMENTS = ['const', 'literal', 'left', 'concat', 'if', 'sumif', 'countifs', 'countifs_op', 'countifs_amp', 'sumifs', 'averageifs', 'pattern',
-              'pattern_then_literal', 'search', 'whole_formula', 'crit_amp_cell', 'crit_op_amp_cell', 'crit_amp_literal', 'crit_amp_number']
+              'pattern_then_literal', 'search', 'whole_formula', 'crit_amp_cell', 'crit_op_amp_cell', 'crit_amp_literal', 'crit_amp_number',
+              'amp_left', 'amp_right', 'amp_plain_then', 'amp_quote_then', 'amp_three']
 
 
 def place(rng, s, how):
@@ -153,6 +159,17 @@ def place(rng, s, how):
         return f'=COUNTIFS(A1:A3,{q("*" + s)})&{q(s)}&{q("*")}', None
     if how == 'search':
         return f'=SEARCH({q("?" + s)},{q("x" + s)})', None
+    # two or three literals joined directly by & (each literal may be emitted in another quote style than its neighbour)
+    if how == 'amp_left':
+        return f'={q(s)}&"z"', s + 'z'
+    if how == 'amp_right':
+        return f'="z"&{q(s)}', 'z' + s
+    if how == 'amp_plain_then':
+        return f'="x"&{q(s)}&"#"', 'x' + s + '#'
+    if how == 'amp_quote_then':
+        return f'="it\'s"&{q(s)}', "it's" + s
+    if how == 'amp_three':
+        return f'={q(s)}&{q(s)}&"\'"', s + s + "'"
     if how == 'crit_amp_cell':
         # "text"&expression criteria: the criterion text is put together when the cell is evaluated
         return f'=COUNTIFS(A1:A3,{q(s)}&B1)', None
